@@ -207,6 +207,10 @@ pub struct Panicked {
 }
 
 impl Panicked {
+    /// the panic site lies in one of the repository's crates (paths are shortened to `<crate dir>/src/...`)
+    pub fn in_code_under_test(&self) -> bool {
+        ["data/src/", "compiler/src/", "runtime/src/", "traits/src/", "garnish/src/"].iter().any(|p| self.loc.starts_with(p))
+    }
     pub fn in_repo(&self) -> bool {
         !self.loc.starts_with("harness/") && !self.loc.starts_with("src/") && !self.loc.starts_with("gv")
     }
